@@ -175,7 +175,7 @@ def lean_obligations(cfg, log):
         rc2, out2, dt2 = sh(["lake", "env", "lean", apath], cwd=LEAN, timeout=1800)
         log.append(f"$ lake env lean audit/{cfg['id']}.lean (rc={rc2}, {dt2:.1f}s)\n" + out2[-3000:])
         cur = None
-        for mm in re.finditer(r"'([^']+)' (does not depend on any axioms|depends on axioms: \[([^\]]*)\])", out2.replace("\n", " ")):
+        for mm in re.finditer(r"'(\S+)' (does not depend on any axioms|depends on axioms: \[([^\]]*)\])", out2.replace("\n", " ")):
             name = mm.group(1)
             axs = [a.strip() for a in (mm.group(3) or "").split(",") if a.strip()]
             axioms[name] = axs
